@@ -11,6 +11,7 @@ Do(ev) ==
     [] ev.e = "Dump" -> Dump /\ ret' = ev.r
     [] ev.e = "SetCount" -> SetCount(ev.c)
     [] ev.e = "Burst" -> Burst(ev.n)
+    [] ev.e = "Own" -> ev.ok = 1 /\ UNCHANGED vars           \* every mlog_get_line result is a string of the caller's own
     [] OTHER -> FALSE
 TraceNext == ti <= Len(T) /\ ti' = ti + 1 /\ Do(T[ti])
 TraceSpec == TraceInit /\ [][TraceNext]_<<vars, ti>>
